@@ -667,6 +667,9 @@ func (s *seq) checkFile(specOp bool) {
 		}
 		s.op("specdecode "+hlib.Hex(s.file), sb.String())
 		s.r.Count("oracle:lean-spec-decode")
+		if len(s.file) <= 2500 {
+			s.malformedSpecOps()
+		}
 	}
 }
 
